@@ -198,7 +198,7 @@ func repeat(b []byte, n int) []byte {
 func adversarial(r *mrand.Rand, i int) Input {
 	depths := []int{1, 2, 3, 8, 64, 500, 513, 2000, 13000, maxInput}
 	d := depths[r.Intn(len(depths))]
-	switch i % 12 {
+	switch i % 13 {
 	case 0: // nested arrays each claiming many items, nothing inside
 		h := claimHead(r, 4)
 		if d*len(h) > maxInput {
@@ -259,6 +259,16 @@ func adversarial(r *mrand.Rand, i int) Input {
 			b = append(b, claimHead(r, 2)...)
 		}
 		return Input{"array-of-huge-strings", b}
+	case 12: // arrays claiming far more than present but holding more real items than any initial capacity, nested
+		levels := []int{1, 2, 4, 16, 46}[r.Intn(5)]
+		items := []int{1025, 1100, 1300, 2100, 4200}[r.Intn(5)]
+		claim := []uint64{99999, 65535, 50000}[r.Intn(3)]
+		var b []byte
+		for l := 0; l < levels && len(b)+items+5 < maxInput; l++ {
+			b = append(b, headBytes(4, claim, 4)...)
+			b = append(b, make([]byte, items)...) // unsigned zeroes
+		}
+		return Input{"inflated-partly-filled", b}
 	default: // wide flat array claiming exactly what is present (big but honest)
 		n := []int{1000, 30000, 60000}[r.Intn(3)]
 		b := headBytes(4, uint64(n), 4)
